@@ -14,6 +14,9 @@ import (
 	"go/ast"
 	"go/printer"
 	"go/token"
+	"os"
+	"path/filepath"
+	"sort"
 	"strconv"
 	"strings"
 )
@@ -237,33 +240,73 @@ func genC17() {
 	// ---- syncer/bisync.go: the recovery of a start runs synchronously inside bisyncStartPoint
 	// (Model/FrontierTraffic.lean: no unit commits while a recovery request is outstanding):
 	// no goroutine is started in these functions, and StartPoint calls bisyncStartPoint directly
-	fsetBs, fbs := parseFile("syncer/bisync.go")
-	sync := map[string][]string{}
-	for _, name := range []string{"bisyncStartPoint", "purgeBisyncRecoveryState", "cleanupRecoveredBisyncCommitRecords"} {
-		found := false
-		for _, d := range fbs.Decls {
-			fd, ok := d.(*ast.FuncDecl)
-			if !ok || fd.Name.Name != name || fd.Body == nil {
+	// (the call graph is followed by NAME through every non-test file of package syncer and of
+	// pkg/redis/checkpoint: a goroutine started in a helper the recovery calls counts as well)
+	type fn struct {
+		fset *token.FileSet
+		decl *ast.FuncDecl
+		file string
+	}
+	funcs := map[string][]fn{}
+	for _, dir := range []string{"syncer", "pkg/redis/checkpoint"} {
+		ents, err := os.ReadDir(filepath.Join(*repo, dir))
+		if err != nil {
+			die("%v", err)
+		}
+		for _, e := range ents {
+			if e.IsDir() || !strings.HasSuffix(e.Name(), ".go") || strings.HasSuffix(e.Name(), "_test.go") {
 				continue
 			}
-			found = true
-			sync[name] = []string{}
-			ast.Inspect(fd.Body, func(n ast.Node) bool {
-				switch st := n.(type) {
-				case *ast.GoStmt:
-					sync[name] = append(sync[name], c17Print(fsetBs, st))
-				case *ast.CallExpr:
-					t := c17Print(fsetBs, st.Fun)
-					if strings.Contains(t, "SafeGo") || strings.Contains(t, "WgGo") {
-						sync[name] = append(sync[name], t)
-					}
+			fs, f := parseFile(filepath.Join(dir, e.Name()))
+			for _, d := range f.Decls {
+				if fd, ok := d.(*ast.FuncDecl); ok && fd.Body != nil {
+					funcs[fd.Name.Name] = append(funcs[fd.Name.Name], fn{fs, fd, dir + "/" + e.Name()})
 				}
-				return true
-			})
+			}
 		}
-		if !found {
-			die("syncer/bisync.go: %s not found", name)
+	}
+	sync := map[string][]string{}
+	for _, name := range []string{"bisyncStartPoint", "purgeBisyncRecoveryState", "cleanupRecoveredBisyncCommitRecords"} {
+		if len(funcs[name]) == 0 {
+			die("syncer: %s not found", name)
 		}
+		sync[name] = []string{}
+		seen := map[string]bool{}
+		work := []string{name}
+		for len(work) > 0 {
+			cur := work[0]
+			work = work[1:]
+			if seen[cur] {
+				continue
+			}
+			seen[cur] = true
+			for _, f := range funcs[cur] {
+				ast.Inspect(f.decl.Body, func(n ast.Node) bool {
+					switch st := n.(type) {
+					case *ast.GoStmt:
+						sync[name] = append(sync[name], cur+": "+c17Print(f.fset, st))
+					case *ast.CallExpr:
+						callee := ""
+						switch fx := st.Fun.(type) {
+						case *ast.Ident:
+							callee = fx.Name
+						case *ast.SelectorExpr:
+							callee = fx.Sel.Name
+						}
+						if callee == "SafeGo" || callee == "WgGo" {
+							sync[name] = append(sync[name], cur+": "+c17Print(f.fset, st.Fun))
+						}
+						// follow calls into the two packages; common method names of other packages
+						// (Close, Do, Put, Exec, ...) resolve to nothing here or to harmless bodies
+						if callee != "" && len(funcs[callee]) > 0 && !seen[callee] {
+							work = append(work, callee)
+						}
+					}
+					return true
+				})
+			}
+		}
+		sort.Strings(sync[name])
 	}
 	facts["c14_start_sync"] = sync
 	fsetO, fo := parseFile("syncer/output.go")
